@@ -25,6 +25,8 @@ CLAIMED["C01"] = ("partial", "C01_no_deadlock / C01_no_self_wait: in every Level
 CLAIMED["C02"] = ("partial (raw-lock exclusion is the specification)", "guard / closure positions denote exactly the declared leaves and those are exactly the locks acquired; closure runs between acquisition and release; interleaved monitor (data only under a hold of that very lock, versions continuous) on model and implementation with a scheduling point at every data access", "7 C02", "structural induction over shapes + differential execution with tagged, versioned payloads")
 CLAIMED["C09"] = ("full for the safety half and conditional completion (sequential big-step); interleaved half by correspondence", "C09_retry_blocks_holding_nothing: from any hold table the retrying acquisition either finishes holding every member once or waits holding a proper prefix of ONE member (nothing for plain locks); interleaved monitor on what every waiting thread holds", "7 C09", "induction over the member list with the source's bookkeeping + differential execution")
 CLAIMED["C12"] = ("partial; known findings D12a, D12b, D12c", "single-lock theorems in any world (the panicking operation kills exactly that lock, propagates; a killed lock refuses try without touching the raw lock and panics a blocking acquisition; kill flags are never cleared); for collections the model reproduces the source's unwind bookkeeping and the four-clause monitor runs on model and implementation with a one-shot panic at every raw-operation index; three defect classes are refuted on witnesses and listed as known findings", "7 C12, 11", "case analysis per operation + differential fault injection + vm_compute refutation witnesses")
+CLAIMED["C14"] = ("partial; known finding F4 (holds moved out of a collection guard)", "ApiTable.v is regenerated from rustc's own description of the API (rustdoc JSON) on every run; C14_key_linear: no sequence of safe public calls of any length gives a thread two live key carriers (induction over client operations whose effects come from the table; K1-K4 evaluated on the table); C14_holds_stay_attached under K5, refuted on the current tree (C14_refuted_take); rustc's verdict on one offending program per escape route (with compiling twins) is compared with the model's prediction", "7 C14", "generated model (translator over rustdoc JSON) + induction over client operation sequences + rustc corpus")
+CLAIMED["C15"] = ("partial; known finding F5 (scoped closure argument outlives the call)", "C15_auto_traits_at_least_std: for every type of the (unboundedly nested) language of locks, guards, collections, wrappers, references and tuples, Send/Sync as rustc derives them from the tree's impls imply the standard library's bounds (induction over the type language against the regenerated table); C15_table_wf (unsafe-only entry points, no shared access into owned collections, no OwnedLockable for &T); rustc corpus with twins and a rustc-decided Send/Sync grid compared with the model", "7 C15", "generated model (translator over rustdoc JSON) + induction over the type language + rustc corpus and grid")
 PENDING = {}
 props = [json.loads(l) for l in open(os.path.join(V, "properties.jsonl"))]
 checks, na = [], []
@@ -35,7 +37,7 @@ for p in props:
         checks.append({
             "property_id": i, "quick_cmd": f"./check {i} quick", "thorough_cmd": f"./check {i} thorough",
             "evidence_file": f"evidence/{i}.json", "replay_cmd_template": f"./check {i} --replay {{path}}",
-            "engine": "coq-model+harness",
+            "engine": "coq-table+rustc-corpus" if i in ("C14", "C15") else "coq-model+harness",
             "level_claimed": {"category": "proof", "text": f"{kind}: {text}", "design_ref": f"DESIGN.md section {ref}"},
             "level_note": TB, "technique": "machine-checked proof in Coq (" + tech + ") with checked correspondence to the code",
         })
@@ -45,7 +47,7 @@ m = {
     "version": 1, "setup_cmd": "./setup.sh",
     "hooks": {"guard": "happylock_verif", "enable": "no source hooks are needed: every observation goes through the public API (R type parameter, ThreadKey::get, is_poisoned, Debug)",
               "baseline_off_cmd": "cd /repo && cargo test --workspace --no-fail-fast --offline", "source_commits": [], "add_only": True},
-    "engines": [{"name": "coq-model+harness", "path": "coq/ harness/ tools/", "serves_properties": sorted(CLAIMED),
+    "engines": [{"name": "coq-table+rustc-corpus", "path": "tools/apitable.py coq/ApiTable.v coq/ApiModel.v tools/corpus.py", "serves_properties": ["C14", "C15"], "kind_free_text": "Gallina table regenerated from rustdoc JSON on every run + theorems re-checked against it + rustc verdicts on a corpus of client programs"}, {"name": "coq-model+harness", "path": "coq/ harness/ tools/", "serves_properties": sorted(CLAIMED),
                  "kind_free_text": "Gallina model + theorems (Coq 8.16.1) tied to /repo by differential execution of generated scenarios"}],
     "checks": checks, "not_applicable": na,
     "notes": "fix commits in /repo: b5ea304 (C06, ThreadKey::get). See known_findings.txt and DESIGN.md.",
